@@ -59,6 +59,9 @@ type PfcpServer struct {
 	rxTrans      map[string]*RxTransaction // key: RemoteAddr-Sequence
 	txSeq        uint32
 	log          *logrus.Entry
+	// done is closed when the main loop has ended. Producers select on it
+	// instead of the input channels being closed under them.
+	done chan struct{}
 }
 
 func NewPfcpServer(cfg *factory.Config, driver forwarder.Driver) *PfcpServer {
@@ -76,6 +79,7 @@ func NewPfcpServer(cfg *factory.Config, driver forwarder.Driver) *PfcpServer {
 		txTrans:      make(map[string]*TxTransaction),
 		rxTrans:      make(map[string]*RxTransaction),
 		log:          logger.PfcpLog.WithField(logger_util.FieldListenAddr, listen),
+		done:         make(chan struct{}),
 	}
 }
 
@@ -88,9 +92,11 @@ func (s *PfcpServer) main(wg *sync.WaitGroup) {
 
 		s.log.Infoln("pfcp server stopped")
 		s.stopTrTimers()
-		close(s.rcvCh)
-		close(s.srCh)
-		close(s.trToCh)
+		// the input channels are left open: timers, the receiver and the
+		// report producers may still be sending; they give up on done
+		if s.done != nil {
+			close(s.done)
+		}
 		wg.Done()
 	}()
 
@@ -202,7 +208,10 @@ func (s *PfcpServer) receiver(wg *sync.WaitGroup) {
 		n, addr, err := s.conn.ReadFrom(buf)
 		if err != nil {
 			s.log.Errorf("%+v", err)
-			s.rcvCh <- ReceivePacket{}
+			select {
+			case s.rcvCh <- ReceivePacket{}:
+			case <-s.done:
+			}
 			break
 		}
 
@@ -214,9 +223,12 @@ func (s *PfcpServer) receiver(wg *sync.WaitGroup) {
 		}
 		msgBuf := make([]byte, n)
 		copy(msgBuf, buf)
-		s.rcvCh <- ReceivePacket{
+		select {
+		case s.rcvCh <- ReceivePacket{
 			RemoteAddr: addr,
 			Buf:        msgBuf,
+		}:
+		case <-s.done:
 		}
 	}
 }
@@ -259,11 +271,18 @@ func (s *PfcpServer) UpdateNodeID(n *RemoteNode, newId string) {
 }
 
 func (s *PfcpServer) NotifySessReport(sr report.SessReport) {
-	s.srCh <- sr
+	select {
+	case s.srCh <- sr:
+	case <-s.done:
+		// server stopped: nobody is left to forward the report
+	}
 }
 
 func (s *PfcpServer) NotifyTransTimeout(trType TransType, trID string) {
-	s.trToCh <- TransactionTimeout{TrType: trType, TrID: trID}
+	select {
+	case s.trToCh <- TransactionTimeout{TrType: trType, TrID: trID}:
+	case <-s.done:
+	}
 }
 
 func (s *PfcpServer) PopBufPkt(seid uint64, pdrid uint16) ([]byte, bool) {
